@@ -65,6 +65,7 @@ class Result:
                 {"kind": kind, "case": case, "expected": _j(expected), "observed": _j(observed), "msg": msg}
             )
         self.stat("violations_total")
+        self.stat("viol/" + kind)
 
     def to_wire(self):
         return {
@@ -272,6 +273,9 @@ def run_check(mod, tier: str, seed: int, jobs: int, cap_s: Optional[float] = Non
     _write_evidence(mod, tier, seed, desc, total, samples, outcomes, capped, len(items), len(results), t0,
                     violations=n_new, known=len(seen_known))
     wall = time.time() - t0
+    kinds = {k[5:]: n for k, n in total.stats.items() if k.startswith("viol/")}
+    if kinds:
+        sys.stderr.write(f"  violation kinds: {kinds}\n")
     print(f"{prop} tier={tier} seed={seed} partitions={len(results)}/{len(items)} evaluations={total.evaluations} "
           f"states={total.states} transitions={total.transitions} nontrivial={total.nontrivial} "
           f"outcomes={len(outcomes)} violations={n_new} known={len(seen_known)} capped={capped} wall={wall:.1f}s")
